@@ -1319,6 +1319,9 @@ func TestVerifC19(t *testing.T) {
 
 func c19Scenario(r *sim.Run) {
 	tp := r.Tape
+	// the iteration order of the subnet file's generation table (a Go map) comes from the tape
+	hook.SetMapOrder(tp)
+	defer hook.SetMapOrder(nil)
 	w := c19NewWorld(r)
 	defer w.teardown()
 	if verifLogFile != nil {
